@@ -42,7 +42,7 @@ func (c *HTTPServerController) queryTable(ctx context.Context, wrt http.Response
 		return
 	}
 
-	req, err := parseRequestDataToRequest(requestData)
+	req, err := parseRequestDataToRequest(c.lmd, requestData)
 	if err != nil {
 		c.errorOutput(err, wrt)
 
@@ -160,9 +160,9 @@ func (c *HTTPServerController) query(wrt http.ResponseWriter, request *http.Requ
 	}
 }
 
-func parseRequestDataToRequest(requestData map[string]interface{}) (req *Request, err error) {
+func parseRequestDataToRequest(lmd *Daemon, requestData map[string]interface{}) (req *Request, err error) {
 	// New request object for specified table
-	req = &Request{}
+	req = &Request{lmd: lmd}
 	table, err := NewTableName(interface2stringNoDedup(requestData["table"]))
 	if err != nil {
 		return nil, err
